@@ -1,9 +1,336 @@
 import BronVerif.Drive.Common
-/-! Driver handlers for C13. -/
+import BronVerif.Model.CurveEnc
+/-! Driver handlers for C13 (element encodings). -/
 namespace BronVerif.Drive.C13
-open BronVerif BronVerif.Drive
+open BronVerif BronVerif.Drive BronVerif.Curve BronVerif.Curves BronVerif.CurveEnc
 
-def handle (op : String) (_args : List String) (_rhs : String) : Verdict :=
-  .unsupported ("C13 op " ++ op)
+/-! runtime points (`Curves.Pt`) ↔ typed points -/
+
+def wOf {q : Nat} [NeZero q] (P : Pt) : WPt (Fp q) :=
+  match P.coords with
+  | some ([x], [y]) => .aff (Fp.ofNat q x) (Fp.ofNat q y)
+  | _ => .inf
+def wTo {q : Nat} : WPt (Fp q) → Pt
+  | .inf => .inf
+  | .aff x y => ⟨some ([x.val], [y.val])⟩
+def w2Of {q : Nat} [NeZero q] (P : Pt) : WPt (Fp2 q) :=
+  match P.coords with
+  | some ([x0, x1], [y0, y1]) => .aff ⟨Fp.ofNat q x0, Fp.ofNat q x1⟩ ⟨Fp.ofNat q y0, Fp.ofNat q y1⟩
+  | _ => .inf
+def w2To {q : Nat} : WPt (Fp2 q) → Pt
+  | .inf => .inf
+  | .aff x y => ⟨some ([x.c0.val, x.c1.val], [y.c0.val, y.c1.val])⟩
+def eOf {q : Nat} [NeZero q] (P : Pt) : EPt (Fp q) :=
+  match P.coords with
+  | some ([x], [y]) => ⟨Fp.ofNat q x, Fp.ofNat q y⟩
+  | _ => E.zero
+def eTo {q : Nat} (P : EPt (Fp q)) : Pt := ⟨some ([P.x.val], [P.y.val])⟩
+
+/-- one curve type as the stream sees it -/
+structure Codec where
+  C : Params
+  /-- `none` = the encoder panics -/
+  encode : String → Pt → Option (List Nat)
+  decode : String → List Nat → Option Pt
+  /-- a valid element of the type: on the curve and, where the type promises it, in the subgroup
+  (decided with the inversion-free arithmetic; on a deterministic quarter of the points the affine
+  reference law `Curves.inSubgroup` is evaluated too, `none` = the two disagree) -/
+  valid : Pt → Option Bool
+  aff : List Nat → List Nat → Option Pt
+  affx : Option (List Nat → Nat → Option Pt)
+  /-- the decoder's result is only determined up to sign (curve25519 `u`-only form) -/
+  upToSign : String → Bool
+  /-- expected byte length of a format (0 = not fixed) -/
+  len : String → Nat
+  weierstrass : Bool
+  /-- tag byte / flag bits of a (base-format) byte string are among those the format defines -/
+  flagsOk : String → List Nat → Bool := fun _ _ => true
+
+def sec1Flags (f : String) (bs : List Nat) : Bool :=
+  match bs with
+  | t :: _ => if f == "compressed" then t == 2 || t == 3 else t == 4
+  | [] => false
+
+def blsFlags (f : String) (bs : List Nat) : Bool :=
+  match bs with
+  | b0 :: _ => if f == "compressed" then b0 / 128 % 2 == 1 && !(b0 / 64 % 2 == 1 && b0 / 32 % 2 == 1) else true
+  | [] => false
+
+def fmtBase (mont : Bool) (f : String) : Option String :=
+  if f == "compressed" || f == "bytes" then some "compressed"
+  else if f == "uncompressed" then some "uncompressed"
+  else if f == "cbor" then some (if mont then "uncompressed" else "compressed")
+  else none
+
+/-- lift a (compressed, uncompressed) pair to the four formats of the stream -/
+def mkEncode (mont : Bool) (enc : String → Pt → Option (List Nat)) (f : String) (P : Pt) : Option (List Nat) :=
+  match fmtBase mont f with
+  | none => none
+  | some b => if f == "cbor" then (enc b P).map Cbor.wrap else enc b P
+
+def mkDecode (mont : Bool) (dec : String → List Nat → Option Pt) (f : String) (bs : List Nat) : Option Pt :=
+  match fmtBase mont f with
+  | none => none
+  | some b => if f == "cbor" then (Cbor.unwrap? bs).bind (dec b) else dec b bs
+
+def codec? (name : String) : Option Codec :=
+  let mk (C : Params) (mont : Bool) (sub : Option (Pt → Bool)) (wei : Bool)
+      (enc : String → Pt → Option (List Nat)) (dec : String → List Nat → Option Pt)
+      (aff : List Nat → List Nat → Option Pt) (affx : Option (List Nat → Nat → Option Pt))
+      (lc lu : Nat) : Codec :=
+    { C := C, encode := mkEncode mont enc, decode := mkDecode mont dec,
+      valid := fun P => match sub with
+        | none => some (onCurve C P)
+        | some fast =>
+          let f := onCurve C P && fast P
+          let sampled := match P.coords with
+            | some (x, _) => x.headD 0 % 4 == 0
+            | none => true
+          if sampled then (if inSubgroup C P == f then some f else none) else some f,
+      aff := aff, affx := affx,
+      upToSign := fun f => mont && (f == "compressed" || f == "bytes"),
+      len := fun f => if f == "compressed" || f == "bytes" then lc else if f == "uncompressed" then lu else 0,
+      weierstrass := wei }
+  let sec1 (C : Params) : Option Codec := withPrime C.p none fun q =>
+    let io := fpIO q
+    let a := Fp.ofNat q C.a
+    let b := Fp.ofNat q C.b
+    some <| mk C false none true
+      (fun f P => some (if f == "compressed" then Sec1.encodeCompressed io 32 (wOf P) else Sec1.encodeUncompressed io 32 (wOf P)))
+      (fun f bs => (if f == "compressed" then Sec1.decodeCompressed io a b 32 bs else Sec1.decodeUncompressed io a b 32 bs).map wTo)
+      (fun x y => (fromAffineW a b (Fp.ofNat q (x.headD 0)) (Fp.ofNat q (y.headD 0))).map wTo)
+      (some fun x odd => (fromAffineX io a b (Fp.ofNat q (x.headD 0)) odd).map wTo)
+      33 65
+  let pasta (C : Params) : Option Codec := withPrime C.p none fun q =>
+    let io := fpIO q
+    let a := Fp.ofNat q C.a
+    let b := Fp.ofNat q C.b
+    some <| mk C false none true
+      (fun f P => some (if f == "compressed" then Pasta.encodeCompressed io 32 (wOf P) else Pasta.encodeUncompressed io 32 (wOf P)))
+      (fun f bs => (if f == "compressed" then Pasta.decodeCompressed io a b 32 bs else Pasta.decodeUncompressed io a b 32 bs).map wTo)
+      (fun x y => (fromAffineW a b (Fp.ofNat q (x.headD 0)) (Fp.ofNat q (y.headD 0))).map wTo)
+      (some fun x odd => (fromAffineX io a b (Fp.ofNat q (x.headD 0)) odd).map wTo)
+      32 64
+  let ed (sub : Bool) : Option Codec := withPrime ed25519.p none fun q =>
+    let C := ed25519
+    let io := fpIO q
+    let a := Fp.ofNat q C.a
+    let d := Fp.ofNat q C.b
+    let flt (r : Option (EPt (Fp q))) : Option Pt := ((if sub then Ed.subOnly a d C.n r else r)).map eTo
+    some <| mk C false (if sub then some (fun P => Ed.inSub a d C.n (eOf P)) else none) false
+      (fun f P => some (if f == "compressed" then Ed.encodeCompressed io 32 (eOf P) else Ed.encodeUncompressed io 32 (eOf P)))
+      (fun f bs => flt (if f == "compressed" then Ed.decodeCompressed io a d 32 bs else Ed.decodeUncompressed io a d 32 bs))
+      (fun x y => flt (Ed.fromAffine a d (Fp.ofNat q (x.headD 0)) (Fp.ofNat q (y.headD 0))))
+      none 32 64
+  let mont (sub : Bool) : Option Codec := withPrime ed25519.p none fun q =>
+    let C := ed25519
+    let io := fpIO q
+    let a := Fp.ofNat q C.a
+    let d := Fp.ofNat q C.b
+    let c := Fp.ofNat q montC
+    let flt (r : Option (EPt (Fp q))) : Option Pt := ((if sub then Ed.subOnly a d C.n r else r)).map eTo
+    some <| mk C true (if sub then some (fun P => Ed.inSub a d C.n (eOf P)) else none) false
+      (fun f P => if f == "compressed" then Mont.encodeCompressed io 32 (eOf P) else Mont.encodeUncompressed io c 32 (eOf P))
+      (fun f bs => flt (if f == "compressed" then Mont.decodeCompressed io a d 32 bs else Mont.decodeUncompressed io a d c 32 bs))
+      (fun x y => flt (Mont.fromAffine io a d c 32 (Fp.ofNat q (x.headD 0)) (Fp.ofNat q (y.headD 0))))
+      none 32 64
+  if name == "k256" then (sec1 k256).map fun c => { c with flagsOk := sec1Flags }
+  else if name == "p256" then (sec1 p256).map fun c => { c with flagsOk := sec1Flags }
+  else if name == "pallas" then pasta pallas
+  else if name == "vesta" then pasta vesta
+  else if name == "ed25519" then ed false
+  else if name == "ed25519sub" then ed true
+  else if name == "curve25519" then mont false
+  else if name == "curve25519sub" then mont true
+  else if name == "bls12381g1" then (fun (o : Option Codec) => o.map fun c => { c with flagsOk := blsFlags }) <| withPrime blsP none fun q =>
+    let C := bls12381g1
+    let io := g1IO q
+    let a := Fp.ofNat q C.a
+    let b := Fp.ofNat q C.b
+    some <| mk C false (some fun P => Bls.inSub a C.n (wOf (q := q) P)) true
+      (fun f P => some (if f == "compressed" then Bls.encodeCompressed io 48 (wOf P) else Bls.encodeUncompressed io 48 (wOf P)))
+      (fun f bs => (if f == "compressed" then Bls.decodeCompressed io a b C.n 48 bs else Bls.decodeUncompressed io a b C.n 48 bs).map wTo)
+      (fun x y => (Bls.fromAffine a b C.n (Fp.ofNat q (x.headD 0)) (Fp.ofNat q (y.headD 0))).map wTo)
+      (some fun x odd => (fromAffineX (fpIO q) a b (Fp.ofNat q (x.headD 0)) odd).map wTo)
+      48 96
+  else if name == "bls12381g2" then (fun (o : Option Codec) => o.map fun c => { c with flagsOk := blsFlags }) <| withPrime blsP none fun q =>
+    let C := bls12381g2
+    let io := g2IO q
+    let a : Fp2 q := ⟨Fp.ofNat q C.a, Fp.ofNat q 0⟩
+    let b : Fp2 q := ⟨Fp.ofNat q C.b, Fp.ofNat q C.b1⟩
+    let fe (x : List Nat) : Fp2 q := ⟨Fp.ofNat q (x.getD 0 0), Fp.ofNat q (x.getD 1 0)⟩
+    some <| mk C false (some fun P => Bls.inSub a C.n (w2Of (q := q) P)) true
+      (fun f P => some (if f == "compressed" then Bls.encodeCompressed io 48 (w2Of P) else Bls.encodeUncompressed io 48 (w2Of P)))
+      (fun f bs => (if f == "compressed" then Bls.decodeCompressed io a b C.n 48 bs else Bls.decodeUncompressed io a b C.n 48 bs).map w2To)
+      (fun x y => (Bls.fromAffine a b C.n (fe x) (fe y)).map w2To)
+      none 96 192
+  else none
+
+def bytesOf? (s : String) : Option (List Nat) := (hexToBytes? s).map fun b => b.toList.map UInt8.toNat
+
+def hexOf (bs : List Nat) : String :=
+  if bs.isEmpty then "-" else String.join (bs.map fun b => byteToHex (UInt8.ofNat b))
+
+def coords? (s : String) : Option (List Nat) := (s.splitOn "/").mapM hexToNat?
+
+def renderEnc (r : Option (List Nat)) : String :=
+  match r with
+  | some bs => hexOf bs
+  | none => "panic"
+
+def renderDec (C : Params) (r : Option Pt) : String :=
+  match r with
+  | some P => "ok:" ++ render C P
+  | none => "reject"
+
+/-- `bytes` and `cbor` are the compressed (curve25519: uncompressed) codec behind another API: findings
+are keyed by the underlying format -/
+def baseName (cd : Codec) (f : String) : String :=
+  if f == "bytes" then "compressed"
+  else if f == "cbor" then (if cd.upToSign "compressed" then "uncompressed" else "compressed")
+  else f
+
+/-- stable key: the inputs with `x = 0` on a Weierstrass curve are classified by the parity of `y` -/
+def keyFor (cd : Codec) (kind cv fmt0 : String) (P : Pt) : String :=
+  let fmt := baseName cd fmt0
+  match P.coords with
+  | some (x, y) =>
+    if cd.weierstrass && x.all (· == 0) then
+      cv ++ "-" ++ fmt ++ "-x0-y" ++ (if y.headD 0 % 2 = 0 then "even" else "odd")
+    else kind ++ "-" ++ cv ++ "-" ++ fmt
+  | none => kind ++ "-" ++ cv ++ "-" ++ fmt
+
+def parseOk? (C : Params) (rhs : String) : Option Pt :=
+  if rhs.startsWith "ok:" then parse? C (rhs.drop 3).toString else none
+
+/-- verdict for a decoder-like call: accepted ⇒ valid element (property), accept/reject and value mirror the model -/
+def decVerdict (cd : Codec) (keyInvalid : String) (upToSign : Bool) (model : Option Pt) (rhs : String) : Verdict :=
+  let C := cd.C
+  if rhs.startsWith "panic" then .bad ("decode-panic-" ++ C.name) rhs
+  else if rhs == "reject" then mirror (renderDec C model) rhs
+  else match parseOk? C rhs with
+    | none => .unsupported "rhs"
+    | some P =>
+      match cd.valid P with
+      | none => .unsupported "projective and affine subgroup tests disagree"
+      | some false => .bad keyInvalid ("accepted bytes denote an invalid element: " ++ rhs)
+      | some true =>
+      if upToSign then
+        match model with
+        | some M => if P == M || P == neg C M then .ok else .diff (renderDec C model)
+        | none => .diff "reject"
+      else mirror (renderDec C model) rhs
+
+def handlePoint (op cv fmt : String) (args : List String) (rhs : String) : Verdict :=
+  match codec? cv with
+  | none => .unsupported ("curve " ++ cv)
+  | some cd =>
+    let C := cd.C
+    match op, args with
+    | "enc", [ps] =>
+      match parse? C ps with
+      | none => .unsupported "point"
+      | some P =>
+        if !onCurve C P then .unsupported "enc: point not on the curve" else
+        let m := cd.encode fmt P
+        if rhs.startsWith "panic" then .bad ("encode-panic-" ++ cv ++ "-" ++ baseName cd fmt) ("encoder panics on a curve point; model=" ++ renderEnc m)
+        else mirror (renderEnc m) rhs
+    | "rt", [ps] =>
+      match parse? C ps with
+      | none => .unsupported "point"
+      | some P =>
+        if !onCurve C P then .unsupported "rt: point not on the curve" else
+        let expected := "ok:" ++ render C P
+        if rhs.startsWith "panic" then .bad ("encode-panic-" ++ cv ++ "-" ++ baseName cd fmt) "encoder or decoder panics on a curve point"
+        else if rhs != expected then .bad (keyFor cd "roundtrip" cv fmt P) ("expected=" ++ expected ++ " observed=" ++ rhs)
+        else if cd.upToSign fmt then .ok
+        else
+          -- the mirror model must agree that this point round-trips
+          let m := (cd.encode fmt P).bind (cd.decode fmt)
+          mirror (renderDec C m) rhs
+    | "inj", [ps, qs] =>
+      match parse? C ps, parse? C qs, rhs.splitOn "," with
+      | some P, some Q, [e1, e2] =>
+        if !onCurve C P || !onCurve C Q then .unsupported "inj: point not on the curve" else
+        if P != Q && e1 == e2 then
+          let K := if P.coords.isNone || (cd.weierstrass && (Q.coords.map fun c => c.1.all (· == 0)) == some true) then Q else P
+          .bad (keyFor cd "inj" cv fmt K) ("distinct elements " ++ ps ++ " and " ++ qs ++ " share the encoding " ++ e1)
+        else if P == Q && e1 != e2 then .diff "same element, two encodings"
+        else mirror (renderEnc (cd.encode fmt P) ++ "," ++ renderEnc (cd.encode fmt Q)) rhs
+      | _, _, _ => .unsupported "inj args"
+    | "dec", [bs] =>
+      match bytesOf? bs with
+      | none => .unsupported "bytes"
+      | some b =>
+        let model := cd.decode fmt b
+        if rhs.startsWith "ok:" && cd.len fmt != 0 && b.length != cd.len fmt then
+          .bad ("decode-len-" ++ cv ++ "-" ++ baseName cd fmt) ("accepted " ++ toString b.length ++ " bytes")
+        else if rhs.startsWith "ok:" && !(cd.flagsOk (baseName cd fmt) (if fmt == "cbor" then (Cbor.unwrap? b).getD [] else b)) then
+          .bad ("decode-flags-" ++ cv ++ "-" ++ baseName cd fmt) ("accepted a tag/flag combination outside the format: " ++ rhs)
+        else decVerdict cd ("decode-invalid-" ++ cv ++ "-" ++ baseName cd fmt) (cd.upToSign fmt) model rhs
+    | _, _ => .unsupported ("C13 op " ++ op)
+
+def handle (op : String) (args : List String) (rhs : String) : Verdict :=
+  match op, args with
+  | "aff", [cv, xs, ys] =>
+    match codec? cv, coords? xs, coords? ys with
+    | some cd, some x, some y => decVerdict cd ("affine-invalid-" ++ cv) false (cd.aff x y) rhs
+    | _, _, _ => .unsupported "aff args"
+  | "affx", [cv, xs, os] =>
+    match codec? cv, coords? xs, os.toNat? with
+    | some cd, some x, some odd =>
+      match cd.affx with
+      | some f => decVerdict cd ("affx-invalid-" ++ cv) false (f x odd) rhs
+      | none => .unsupported "affx on a curve without FromAffineX"
+    | _, _, _ => .unsupported "affx args"
+  | "gtdec", [bs] =>
+    match bytesOf? bs with
+    | none => .unsupported "bytes"
+    | some b =>
+      if rhs.startsWith "panic" then .bad "decode-panic-gt" rhs else
+      match GT.decode blsP 48 b with
+      | none => mirror "reject" rhs
+      | some cs => mirror ("ok:" ++ joinComma (cs.map natToHex)) rhs
+  | "gtenc", [cs] =>
+    match parseNatList? cs with
+    | some c => mirror (hexOf (GT.encode 48 c)) rhs
+    | none => .unsupported "gt comps"
+  | "gtrt", [cs] =>
+    match parseNatList? cs with
+    | some c =>
+      if c.length != 12 || c.any (· ≥ blsP) then .unsupported "gt comps" else
+      spec "roundtrip-gt" ("ok:" ++ cs) rhs
+    | none => .unsupported "gt comps"
+  | "sfb", [name, qs, ls, bs] =>
+    match hexToNat? qs, ls.toNat?, bytesOf? bs with
+    | some q, some len, some b =>
+      if rhs.startsWith "panic" then .bad ("scalar-panic-" ++ name) rhs else
+      let model := if name == "ed25519.base" then Scalar.fromBytesClearTop q len b else Scalar.fromBytes q len b
+      -- property: an accepted string denotes `bytes mod order`
+      if rhs.startsWith "ok:" && rhs != "ok:" ++ natToHex (beNat b % q) then
+        .bad ("scalar-frombytes-" ++ name) ("expected=ok:" ++ natToHex (beNat b % q) ++ " observed=" ++ rhs)
+      else mirror (match model with | some v => "ok:" ++ natToHex v | none => "reject") rhs
+    | _, _, _ => .unsupported "sfb args"
+  | "sbytes", [name, qs, ls, vs] =>
+    match hexToNat? qs, ls.toNat?, hexToNat? vs with
+    | some q, some len, some v =>
+      if v ≥ q then .unsupported "sbytes: unreduced value" else
+      match bytesOf? rhs with
+      | none => .unsupported "rhs"
+      | some b =>
+        -- property: decoding the encoding gives the element back
+        if Scalar.fromBytes q len b != some v then .bad ("scalar-roundtrip-" ++ name) ("Bytes() does not decode to the element: " ++ rhs)
+        else mirror (hexOf (Scalar.toBytes len v)) rhs
+    | _, _, _ => .unsupported "sbytes args"
+  | "swide", [name, qs, ws, bs] =>
+    match hexToNat? qs, ws.toNat?, bytesOf? bs with
+    | some q, some wide, some b =>
+      if rhs.startsWith "panic" then .bad ("scalar-panic-" ++ name) rhs else
+      if rhs.startsWith "ok:" && rhs != "ok:" ++ natToHex (beNat b % q) then
+        .bad ("scalar-fromwide-" ++ name) ("expected=ok:" ++ natToHex (beNat b % q) ++ " observed=" ++ rhs)
+      else mirror (match Scalar.fromWideBytes q wide b with | some v => "ok:" ++ natToHex v | none => "reject") rhs
+    | _, _, _ => .unsupported "swide args"
+  | _, cv :: fmt :: rest => handlePoint op cv fmt rest rhs
+  | _, _ => .unsupported ("C13 op " ++ op)
 
 end BronVerif.Drive.C13
